@@ -106,6 +106,9 @@ class Base(probe.Contract):
                 c.events['argument_gauge_changed_only:' + self.api] += 1
             c.check(self.api, 'argument_unchanged', d is None, shape_tags_snap(s) if d is not None else (), {'diff': d, 'shape': s.shape_sig()} if d else None,
                     prop='C06')
+            if self.api in ('TT.svd', 'TT.pinv'):  # "neither call changes the input unless overwriting was requested" is a clause of C05 itself
+                c.check(self.api, 'input_unchanged_without_overwrite', d is None, shape_tags_snap(s) if d is not None else (), {'diff': d, 'shape': s.shape_sig()} if d else None,
+                        prop='C05')
 
     def exc(self, st, e, args, kwargs):
         if st is not None:
@@ -1005,6 +1008,19 @@ class Init(probe.Contract):
 
 # ======================================================================================= C05 ====
 
+def _flags_admissible(s, v):
+    """svd / pinv with a sweep switched off: admissible exactly where the snapshot already is in the gauge that sweep would have
+    established (measured on the pre-call snapshot): ortho_l=False needs cores 0..index-2 left-orthonormal, ortho_r=False needs
+    cores index..d-1 right-orthonormal.  Returns (admissible, tag)."""
+    idx = int(v['index'])
+    fl, fr = v['ortho_l'] is True, v['ortho_r'] is True
+    if fl and fr:
+        return True, 'sweeps=both'
+    okl = fl or all(_gram_err_left(c) <= 1e-10 for c in s.cores[:max(idx - 1, 0)])
+    okr = fr or all(_gram_err_right(c) <= 1e-10 for c in s.cores[idx:])
+    return (okl and okr), 'sweeps=%s' % ('none' if not (fl or fr) else ('right_only' if fr else 'left_only'))
+
+
 class SVD(Base):
     api = 'TT.svd'
     prop = 'C05'
@@ -1023,7 +1039,11 @@ class SVD(Base):
     def value(self, st, res, args, kwargs):
         s = st['snaps'][0]
         v = self._args(args, kwargs)
-        if not _std(s) or any(x != 1 for x in s.col_dims) or not (v['ortho_l'] is True and v['ortho_r'] is True):
+        if not _std(s) or any(x != 1 for x in s.col_dims):
+            return
+        adm, sweeps = _flags_admissible(s, v)
+        if not adm:
+            core.ctx().skip('svd_sweep_switched_off_on_input_not_in_that_gauge')
             return
         try:
             u, sv, w = res
@@ -1038,7 +1058,7 @@ class SVD(Base):
         U = dense_b_cores(u.cores).reshape(A.shape[0], -1)
         W = dense_b_cores(w.cores).reshape(-1, A.shape[1])
         r = len(sv)
-        tags = ['index=%s' % ('first' if idx == 1 else 'last' if idx == d - 1 else 'inner')]
+        tags = ['index=%s' % ('first' if idx == 1 else 'last' if idx == d - 1 else 'inner'), sweeps]
         self.ck('shapes', U.shape[1] == r and W.shape[0] == r, [s], {'U': U.shape, 's': r, 'V': W.shape}, tags)
         if U.shape[1] != r or W.shape[0] != r:
             return
@@ -1098,7 +1118,11 @@ class Pinv(Base):
     def value(self, st, res, args, kwargs):
         s = st['snaps'][0]
         v = self._args(args, kwargs)
-        if not _std(s) or any(x != 1 for x in s.col_dims) or not (v['ortho_l'] is True and v['ortho_r'] is True):
+        if not _std(s) or any(x != 1 for x in s.col_dims):
+            return
+        adm, sweeps = _flags_admissible(s, v)
+        if not adm:
+            core.ctx().skip('pinv_sweep_switched_off_on_input_not_in_that_gauge')
             return
         if not _is_tt(res) or not tt_consistent(res)[0]:
             return
@@ -1124,7 +1148,7 @@ class Pinv(Base):
             return
         want = np.conj(np.linalg.pinv(A, rcond=rcond)).T
         got = dense_cores(res.cores).reshape(A.shape) if list(res.row_dims) == s.row_dims else None
-        tags = ['index=%s' % ('first' if idx == 1 else 'last' if idx == d - 1 else 'inner')]
+        tags = ['index=%s' % ('first' if idx == 1 else 'last' if idx == d - 1 else 'inner'), sweeps]
         smin = float(np.min(strue[rel > rcond])) if np.any(rel > rcond) else s0
         tol = 1e-8 * (s0 / smin) ** 1 if thr == 0 else max(1e-8, 10 * thr) * (s0 / smin)
         self.ck('dims', got is not None, [s], None, tags)
